@@ -139,6 +139,25 @@ pub fn cases(tier: &str, seed: u64) -> Vec<Case> {
             }
         }
     }
+    // overlapping structures: a label reached through a pointer ends exactly on the pointer's first or
+    // second byte, so that the read cursor passes over the pointer itself and meets the caller's cursor
+    for p in 1..8usize {
+        for t in 0..p {
+            for end_at in [p, p + 1, p + 2] {
+                if end_at < t + 1 { continue; }
+                let l = end_at - (t + 1);
+                if l == 0 || l > 63 { continue; }
+                for tail in [vec![0u8], vec![1, b'a', 0], vec![0xC0, 0], vec![2, b'b', b'c', 0]] {
+                    let mut buf = vec![0x61u8; p];
+                    buf[t] = l as u8;
+                    buf.push(0xC0);
+                    buf.push(t as u8);
+                    buf.extend_from_slice(&tail);
+                    for pos in [p, t, 0] { push_case(&mut v, &buf, pos, "overlap"); }
+                }
+            }
+        }
+    }
     let mut r = Rng::new(seed);
     let n = if tier == "thorough" { 400_000 } else { 20_000 };
     for i in 0..n {
